@@ -127,7 +127,31 @@ def r3_3(ctx):
     src = norm(rc.node)
     ys = [y for y in walk_local(rc.node) if isinstance(y, ast.Yield)]
     styled = [y for y in ys if isinstance(y.value, ast.Call) and len(y.value.args) >= 2 and not (isinstance(y.value.args[1], ast.Constant) and y.value.args[1].value is None)]
-    ok = "style.without_color" in src and len(styled) == 1 and norm(styled[0].value.args[1]) in ("colorless_style", "style.without_color")
+    loop_targets = {t.id for x in walk_local(rc.node) if isinstance(x, ast.For) for t in ast.walk(x.target) if isinstance(t, ast.Name)}
+    ok = len(styled) == 1
+    if ok:
+        a1 = styled[0].value.args[1]
+
+        visiting = set()
+
+        def stripped(e, depth=0):
+            """e is <loop style>.without_color, or a name all of whose definitions are that / a lookup in a cache filled only with that"""
+            if isinstance(e, ast.Attribute) and e.attr == "without_color" and isinstance(e.value, ast.Name) and e.value.id in loop_targets:
+                return True
+            if isinstance(e, ast.Name):
+                if e.id in visiting:
+                    return True  # coinductive: a cycle through the cache adds no new source of values
+                visiting.add(e.id)
+                vals = [x.value for x in walk_local(rc.node) if isinstance(x, ast.Assign) and len(x.targets) == 1 and norm(x.targets[0]) == e.id]
+                r = bool(vals) and all(stripped(v, depth + 1) for v in vals)
+                visiting.discard(e.id)
+                return r
+            if isinstance(e, ast.Call) and isinstance(e.func, ast.Attribute) and e.func.attr == "get" and isinstance(e.func.value, ast.Name) and len(e.args) == 1 and isinstance(e.args[0], ast.Name) and e.args[0].id in loop_targets:
+                cache_name, key = e.func.value.id, e.args[0].id
+                stores = [x for x in walk_local(rc.node) if isinstance(x, ast.Assign) and isinstance(x.targets[0], ast.Subscript) and norm(x.targets[0].value) == cache_name]
+                return bool(stores) and all(norm(x.targets[0].slice) == key and stripped(x.value, depth + 1) for x in stores)
+            return False
+        ok = stripped(a1)
     # the only un-stripped yield passes style None and is under the falsy-style branch
     raw = [y for y in ys if y not in styled]
     ok = ok and all(isinstance(y.value, ast.Call) and isinstance(y.value.args[1], ast.Constant) and y.value.args[1].value is None for y in raw)
@@ -209,11 +233,16 @@ def r3_6(ctx):
     k = ctx.repo.fn("control:Control.__init__")
     ok = any(isinstance(x, ast.Call) and norm(x.func) == "Segment.control" for x in walk_local(k.node))
     ctx.check(ok, k.fq, "Segment.control(control_codes)", k.where, "Control holds a control segment", "Control no longer builds a control segment")
+    def builds_control(fn):
+        """every cls(...)/Segment(...) construction in fn passes is_control=True (3rd positional or keyword)"""
+        cons = [x for x in walk_local(fn.node) if isinstance(x, ast.Call) and norm(x.func) in ("cls", "Segment")]
+        def is_true(e):
+            return isinstance(e, ast.Constant) and e.value is True
+        return bool(cons) and all((len(x.args) >= 3 and is_true(x.args[2])) or any(k.arg == "is_control" and is_true(k.value) for k in x.keywords) for x in cons)
     sc = ctx.repo.fn("segment:Segment.control")
-    src = norm(sc.node)
-    ctx.check("is_control=True" in src or "cls(text, style, True)" in src, sc.fq, "cls(text, style, is_control=True)", sc.where, "Segment.control sets is_control", "Segment.control does not set is_control=True")
+    ctx.check(builds_control(sc), sc.fq, "cls(text, style, is_control=True)", sc.where, "Segment.control sets is_control", "Segment.control does not set is_control=True")
     mc = ctx.repo.fn("segment:Segment.make_control")
-    ctx.check("cls(text, style, True)" in norm(mc.node) or "is_control=True" in norm(mc.node), mc.fq, "make_control", mc.where, "make_control marks every segment as control", "Segment.make_control does not mark segments as control")
+    ctx.check(builds_control(mc), mc.fq, "make_control", mc.where, "make_control marks every segment as control", "Segment.make_control does not mark segments as control")
 
 
 def r3_7(ctx):
